@@ -13,7 +13,9 @@ from engines import url_common as uc
 
 RULE = ('parse: grammar-directed URLs (scheme x userinfo x host kind {reg-name, IDN, IPv4 in dec/hex/octal/dword/'
         'full-width/padded spellings, IPv6 forms} x port x path segments {dots, empty, escapes, non-ASCII} x query x '
-        'fragment), each rendered canonically and in 2 random spellings; the string constants of wpull/url_test.py as '
+        'fragment), each rendered canonically and in 2 random spellings; explicit ports drawn from {own default, every other '
+        'scheme\'s default, default±1, 0, 1, 65535, 65536, misc}; a deterministic port matrix (6 schemes x those ports x 4 hosts x '
+        'userinfo x tail) with the distinct-ports-distinct-normal-forms oracle; the string constants of wpull/url_test.py as '
         'seeds, 1-3 character-level mutations of both; a malformed stream (bracket/colon soup, ports, labels, '
         'surrogates); 8% default_scheme != http, 18% encoding != utf-8; thorough adds all strings of length <= 4 '
         '(+ "http://" + all of length <= 5) over {h t p : / . @ [ ] % 0 x}. non-trivial = input non-empty; distinct by '
@@ -50,6 +52,18 @@ def batch(ctx, wu, cases):
         uc.oracle_norm(ctx, wu, c)
     for c in cases[:2]:
         ctx.sample(c.as_json())
+
+
+def port_matrix(ctx, wu):
+    """deterministic: every scheme x {own default, every other scheme's default, default±1, 0, 1, 65535, 65536}"""
+    groups = uc.port_matrix_cases()
+    batch(ctx, wu, [c for g in groups for c in g])
+    for g in groups:
+        uc.oracle_ports(ctx, g)
+        ctx.tag('port-groups')
+    ctx.note('port_matrix', '%d groups: 6 schemes x 4 hosts x userinfo x tail, each with no port and %d explicit ports '
+             '(own default, the other schemes\' defaults, default-1, default+1, 0, 1, 65535, 65536)'
+             % (len(groups), len(groups[0]) - 1))
 
 
 def gen_cases(ctx, wu, rng, n_spec, n_seed, n_mal):
@@ -102,6 +116,10 @@ def replay(ctx, case, kind=None, where=None):
         cases = [uc.Case(u) for u in case['urls']]
         uc.correspond(ctx, wu, cases)
         equivalence(ctx, wu, None, cases)
+    elif s == 'ports':
+        cases = [uc.Case(u) for u in case['urls']]
+        batch(ctx, wu, cases)
+        uc.oracle_ports(ctx, cases)
     elif s == 'ipv4':
         import random
         t = case['text']
@@ -127,6 +145,7 @@ def run(ctx):
     for j in uc.load_corpus(ctx, 'C10'):
         replay(ctx, j.get('case', j))
     rng = ctx.rng
+    port_matrix(ctx, wu)
     uc.stream_int(ctx, ctx.scale(3000, 60000), ctx.subrng('int'))
     uc.stream_ipv4(ctx, wu, ctx.scale(2000, 40000), ctx.subrng('ipv4'))
     uc.stream_strings(ctx, wu, ctx.scale(4000, 80000), ctx.subrng('str'))
@@ -148,6 +167,7 @@ def run(ctx):
 def search(ctx):
     wu = uc.setup(ctx)
     rng = ctx.subrng('search')
+    port_matrix(ctx, wu)
     cases, groups = gen_cases(ctx, wu, rng, ctx.scale(400, 1000), ctx.scale(300, 800), ctx.scale(200, 500))
     batch(ctx, wu, cases)
     for spec, g in groups:
